@@ -245,6 +245,7 @@ package terminal
 //@ func unquoteString(b []byte) (v []byte, n int)
 //@   requires len(b) >= 1
 //@   ensures  [zero] n == 0 ==> v == nil
+//@   ensures  [nil-zero;C08] v == nil ==> n == 0
 //@   ensures  [bounds] 0 <= n && len(v) <= n && n <= len(b)
 //@   ensures  [plain;C08] forall k int :: 0 <= k && k < len(b) && isStopByte(b[k]) && (forall j int :: 0 <= j && j < k ==> isPlainByte(b[j])) ==> n == k && (k == 0 ==> v == nil) && (k > 0 ==> len(v) == k && forall j int :: 0 <= j && j < k ==> v[j] == b[j])
 //@   assigns  nothing
